@@ -123,8 +123,8 @@ Definition lex_step (s : string) : step :=
       if Ascii.eqb c "`" then
         let (a, b) := span is_bt_char r in
         match b with
-        | String "`" b' => Some (SNext (TId (String "`" (a ++ "`"))) b')
-        | _ => None
+        | String d b' => if Ascii.eqb d "`" then Some (SNext (TId (String "`" (a ++ "`"))) b') else None
+        | EmptyString => None
         end
       else None in
     match bt with
@@ -430,12 +430,14 @@ Definition is_ident (s : string) : bool :=
 
 Definition wf_name (x : string) : bool :=
   match x with
-  | String "<" r =>
-    match split_gt r with
-    | Some (t, u) => is_ident t && (match u with EmptyString => true | _ => is_ident u end)
-    | None => false
-    end
-  | _ => is_ident x
+  | String c r =>
+    if Ascii.eqb c "<" then
+      match split_gt r with
+      | Some (t, u) => is_ident t && (match u with EmptyString => true | _ => is_ident u end)
+      | None => false
+      end
+    else is_ident x
+  | EmptyString => false
   end.
 
 Fixpoint wf_names (e : expr) : bool :=
